@@ -73,7 +73,11 @@ def invoke(fn, names_, args, environment, pos):
                     else:
                         names.append(None)
             else:
-                for value in argvalue.value:
+                if argvalue.isSet():
+                    spreadvalues = argvalue.getSortedItems()
+                else:
+                    spreadvalues = argvalue.value
+                for value in spreadvalues:
                     values.append(value)
                     names.append(None)
         else:
@@ -1182,7 +1186,11 @@ class NodeList:
         for item in self.items:
             if isinstance(item, NodeSpread):
                 lst = item.evaluate(environment)
-                for value in lst.value:
+                if lst.isSet():
+                    spreadvalues = lst.getSortedItems()
+                else:
+                    spreadvalues = lst.value
+                for value in spreadvalues:
                     result.addItem(value)
             else:
                 result.addItem(item.evaluate(environment))
